@@ -1,4 +1,4 @@
-use proc_macro2::{Spacing, Span, TokenStream, TokenTree};
+use proc_macro2::{Span, TokenStream, TokenTree};
 use quote::{quote, ToTokens};
 use syn::Ident;
 
@@ -45,7 +45,9 @@ impl ToTokens for MaybeVoid {
 }
 
 pub fn is_punct(tt: &TokenTree, expect: char) -> bool {
-    matches!(tt, TokenTree::Punct(punct) if punct.as_char() == expect && punct.spacing() == Spacing::Alone)
+    // The spacing must not matter: `"a",|lex| 1` and `callback=|lex| 1` hand over a `,` / `=` that is
+    // joint with the following `|`, and it separates / assigns all the same.
+    matches!(tt, TokenTree::Punct(punct) if punct.as_char() == expect)
 }
 
 /// If supplied `tt` is a punct matching a char, returns `None`, else returns `tt`
